@@ -64,7 +64,10 @@ Inductive qobs :=
 | QExists (e : Z) (r : bool)         (* entity_exists(e) *)
 | QEntities (l : list Z)             (* entities *)
 | QComps (e : Z) (l : list Z)        (* get_components(e), as instances *)
-| QIsH (i : Z) (r : bool).           (* is_handler(i) (false for a non-handler object) *)
+| QIsH (i : Z) (r : bool)            (* is_handler(i) (false for a non-handler object) *)
+| QHas (e ty : Z) (r : bool)         (* has_component(e, ty) *)
+| QGetC (e ty : Z) (r : option Z)    (* get_component(e, ty): the instance or None *)
+| QGet (ty : Z) (l : list (Z * Z)).  (* get(ty): pairs (entity, instance) *)
 
 Record obs := mkobs {
   o_ret  : option Z;    (* Create: the id; Remove: the removed instance; Process that raised: the KeyError key *)
@@ -219,12 +222,18 @@ Fixpoint match_groups (log : list cb) (gs : list (list cb)) : bool :=
   end.
 
 Definition nil_b {A} (l : list A) : bool := match l with [] => true | _ => false end.
+Definition oz_eqb (a b : option Z) : bool :=
+  match a, b with Some x, Some y => x =? y | None, None => true | _, _ => false end.
 
 (* ---- a postponed callback that raises ------------------------------------------------ *)
 (* Harness doubles: the lifecycle callbacks of the instances numbered >= 1000
    raise a marker exception (kind 3) when they are invoked by the release of
-   postponed events, after having logged the call. *)
-Definition raises (i : Z) : bool := 1000 <=? i.
+   postponed events, after having logged the call; those of the instances
+   numbered >= 2000 execute  world.dispatch_enabled = False  there instead: the
+   release stops (outcome kind 4) and the harness records that nested assignment
+   as the next operation of the history. *)
+Definition raises (i : Z) : bool := (1000 <=? i) && (i <? 2000).
+Definition disables (i : Z) : bool := 2000 <=? i.
 Definition lc_kind (k : ck) : bool := match k with CAdd | CRem => true | _ => false end.
 
 Definition rmatch (k : ck) (i e : Z) (x : qent) : bool :=
@@ -243,9 +252,11 @@ Fixpoint rtake (k : ck) (i e : Z) (gs : list (list qent)) : option (list (list q
   | g :: gs => match rtake1 k i e g with Some g' => Some (g' :: gs) | None => None end
   end.
 (* the setter pops an event, then delivers it: when the callback raises, that
-   event and all before it have left the queue, the others are still there.
-   The log ends with the raising call. *)
-Fixpoint release_raise (gs : list (list qent)) (log : list cb) : option (list (list qent)) :=
+   event and all before it have left the queue, the others are still there
+   (the same when the callback disables dispatching: the loop condition fails).
+   The log ends with the call of the halting instance (h). *)
+Fixpoint release_raise (h : Z -> bool) (gs : list (list qent)) (log : list cb)
+  : option (list (list qent)) :=
   match log with
   | [] => None
   | c :: log' =>
@@ -253,8 +264,8 @@ Fixpoint release_raise (gs : list (list qent)) (log : list cb) : option (list (l
         match rtake (c_k c) (c_i c) (c_a c) gs with
         | None => None
         | Some gs' =>
-            if raises (c_i c) then (if nil_b log' then Some gs' else None)
-            else release_raise gs' log'
+            if h (c_i c) then (if nil_b log' then Some gs' else None)
+            else release_raise h gs' log'
         end
       else None
   end.
@@ -266,10 +277,12 @@ Definition qcheck (s : st) (q : qobs) : bool :=
   | QEntities l => zperm_b l (filter (fun e => negb (zmem e (dead s))) (akeys (ents s)))
   | QComps e l => zperm_b l (map snd (trow (ents s) e))
   | QIsH i r => Bool.eqb r (zmem i (reg s))
+  (* the component queries read _entities / _components only: marks do not matter *)
+  | QHas e ty r => Bool.eqb r (match tget (ents s) e ty with Some _ => true | None => false end)
+  | QGetC e ty r => oz_eqb r (tget (ents s) e ty)
+  | QGet ty l => pperm_b l (tall (ents s) ty)
   end.
 
-Definition oz_eqb (a b : option Z) : bool :=
-  match a, b with Some x, Some y => x =? y | None, None => true | _, _ => false end.
 
 (* acceptor bookkeeping: while disabled every operation opens its own group *)
 Definition open_group (s : st) : st :=
@@ -369,7 +382,14 @@ Definition step_op (p : params) (s : st) (o : op) (ob : obs) : option st :=
       let s := set_enabled s true in
       if o_exc ob =? 3 then
         if selfl s then
-          match release_raise (queue s) (o_log ob) with
+          match release_raise raises (queue s) (o_log ob) with
+          | Some q => Some (set_queue s q)
+          | None => None
+          end
+        else None
+      else if o_exc ob =? 4 then
+        if selfl s then
+          match release_raise disables (queue s) (o_log ob) with
           | Some q => Some (set_queue s q)
           | None => None
           end
@@ -377,7 +397,7 @@ Definition step_op (p : params) (s : st) (o : op) (ob : obs) : option st :=
       else
         let gs := map (flat_map (deliver p s)) (queue s) in
         if (o_exc ob =? 0) && match_groups (o_log ob) gs
-           && forallb (fun c => negb (lc_kind (c_k c) && raises (c_i c))) (o_log ob)
+           && forallb (fun c => negb (lc_kind (c_k c) && (raises (c_i c) || disables (c_i c)))) (o_log ob)
         then Some (set_queue s []) else None
   | Probe tok =>
       if negb (pkey s) then          (* if event_name not in self._events: return *)
